@@ -63,11 +63,19 @@ def parseKind : String → Option Kind
 /-- span arguments `<tid> <sid> <kind> <root> <client> <cls>` -/
 def parseSpan (args : List String) : Option (String × Span) :=
   match args with
-  | [tid, sid, kind, root, client, cls] =>
-    match sid.toNat?, parseKind kind, client.toNat? with
-    | some sid, some k, some c =>
-      some (tid, { sid := sid, kind := k, root := flag root, rate := c, fields := [("cls", .str cls)] })
-    | _, _, _ => none
+  | tid :: sid :: kind :: root :: client :: cls :: rest =>
+    -- optional 7th argument: the `meta.refinery.original_sample_rate` the payload already carries
+    -- (the payload's dedicated int64 field: 0 is "absent")
+    let carried : Option Int := match rest with
+      | [] => some 0
+      | [v] => v.toInt?
+      | _ => none
+    match sid.toNat?, parseKind kind, client.toNat?, carried with
+    | some sid, some k, some c, some v =>
+      let f : Fields := [("cls", .str cls)]
+      let f := if v = 0 then f else f ++ [(kOriginal, .int v)]
+      some (tid, { sid := sid, kind := k, root := flag root, rate := c, fields := f })
+    | _, _, _, _ => none
   | _ => none
 
 def findExt (exts : List (List String)) (name : String) : Option (List String) :=
@@ -191,6 +199,7 @@ structure MSt where
   host0 : Bool := false
   cfg : Cfg := {}
   client : List (Nat × Nat) := []                 -- sid ↦ client rate
+  carried : List (Nat × Nat) := []                -- sid ↦ original_sample_rate the payload carried
   arrivals : List (String × List Arr) := []       -- buffered spans per trace (obs `buf`)
   kept : List (String × MRec) := []
   queue : List MDec := []
@@ -231,7 +240,7 @@ def monCommon (m : MSt) (path : String) (o : OSpan) : List Fail :=
 
 /-- C04 check of one forwarded span outside dry run: `traceRate` is the rate of the decision that
 applies; `viaRecord`: the rate reached the span through the stored decision record -/
-def monRate (path : String) (viaRecord : Bool) (client traceRate : Nat) (o : OSpan) : List Fail :=
+def monRate (path : String) (viaRecord : Bool) (client carried traceRate : Nat) (o : OSpan) : List Fail :=
   let t := if client < 1 then 1 else client
   let want := t * traceRate
   let inRange := client < two31 && want < two63
@@ -245,8 +254,11 @@ def monRate (path : String) (viaRecord : Bool) (client traceRate : Nat) (o : OSp
   else
     (if o.get kFinal != intField want then
       [mkFail "C04" s!"C04:final-sample-rate-field:path={path}" s!"span {o.sid}: SampleRate {o.rate} but {kFinal} = {o.get kFinal}"] else []) ++
-    (if o.get kOriginal != intField client then
-      [mkFail "C04" s!"C04:original-sample-rate-field:path={path}" s!"span {o.sid}: client rate {client} but {kOriginal} = {o.get kOriginal}"] else []) ++
+    -- a nonzero client rate is recorded whatever the payload carried; with client rate 0 the code
+    -- leaves the field alone, so a carried value stays
+    (if o.get kOriginal != intField (if client != 0 then client else carried) then
+      [mkFail "C04" (s!"C04:original-sample-rate-field:path={path}" ++ (if carried != 0 then ":carried-value" else ""))
+        s!"span {o.sid}: client rate {client}, payload carried {carried}, forwarded {kOriginal} = {o.get kOriginal}"] else []) ++
     (if traceRate ≥ 1 && o.rate < 1 then
       [mkFail "C04" s!"C04:rate-below-one:path={path}" s!"span {o.sid}: SampleRate {o.rate}"] else [])
 
@@ -285,10 +297,11 @@ def obsSpans (toks : List String) : List OSpan := toks.filterMap parseOSpan
 def monStep (m : MSt) (op : List String) (exts : List (List String)) (obs : Option String) : MSt × List Fail :=
   let toks := (obs.getD "").splitOn " "
   match op with
-  | ["span", tid, sid, kind, root, client, _] =>
+  | "span" :: tid :: sid :: kind :: root :: client :: _ :: rest =>
     let sidN := sid.toNat?.getD 0
     let cl := client.toNat?.getD 0
-    let m := { m with client := (sidN, cl) :: m.client }
+    let cv := ((rest.head?.bind String.toNat?)).getD 0
+    let m := { m with client := (sidN, cl) :: m.client, carried := (sidN, cv) :: m.carried }
     match toks with
     | ["buf"] =>
       ({ m with arrivals := update m.arrivals tid ((lookup m.arrivals tid).getD [] ++ [{ sid := sidN, kind := kind, root := flag root }]) }, [])
@@ -306,7 +319,7 @@ def monStep (m : MSt) (op : List String) (exts : List (List String)) (obs : Opti
           | some r =>
             let r := r.count kind
             let m := { m with kept := update m.kept tid r }
-            let rate := if m.cfg.dry then [] else monRate "late" true cl r.rate o
+            let rate := if m.cfg.dry then [] else monRate "late" true cl cv r.rate o
             let rs := monReason m "late" o (strField (if r.reason != "" then r.reason ++ lateSuffix else lateOnly)) (strField sendLateSpan) none
             let cs := monCounts m "late" o (flag root) r.desc r.events r.links r.spans false false
             (m, common ++ rate ++ rs ++ cs)
@@ -339,7 +352,8 @@ def monStep (m : MSt) (op : List String) (exts : List (List String)) (obs : Opti
           let a := e.arr.find? (·.sid == o.sid)
           let isRoot := (a.map (·.root)).getD false
           let cl := ((m.client.find? (·.1 == o.sid)).map (·.2)).getD 0
-          let rate := if m.cfg.dry || !e.d.keep then [] else monRate "ontime" false cl e.d.rate o
+          let cv := ((m.carried.find? (·.1 == o.sid)).map (·.2)).getD 0
+          let rate := if m.cfg.dry || !e.d.keep then [] else monRate "ontime" false cl cv e.d.rate o
           let rs := monReason m "ontime" o (strField e.d.reason) (strField (if hasRoot then sendGotRoot else sendExpired)) (strField e.d.key)
           let cs := monCounts m "ontime" o isRoot e.arr.length (cntKind e.arr "e") (cntKind e.arr "l") (cntKind e.arr "s")
             e.cfgAt.counts (e.cfgAt.spanCount || e.cfgAt.counts)
@@ -348,10 +362,11 @@ def monStep (m : MSt) (op : List String) (exts : List (List String)) (obs : Opti
             [mkFail "C06" "C06:forwarded-span-set" s!"trace {tid}: {e.arr.length} spans buffered at decision, {(obsSpans rest).length} forwarded"] else []
         (m, fails ++ missing)
     | _ => (m, [])
-  | ["stress", tid, sid, kind, _, client, _] =>
+  | "stress" :: tid :: sid :: kind :: _ :: client :: _ :: rest =>
     let sidN := sid.toNat?.getD 0
     let cl := client.toNat?.getD 0
-    let m := { m with client := (sidN, cl) :: m.client }
+    let cv := ((rest.head?.bind String.toNat?)).getD 0
+    let m := { m with client := (sidN, cl) :: m.client, carried := (sidN, cv) :: m.carried }
     let sr := parseSr exts
     -- a first decision by the stress reliever makes a record from an empty trace
     let m := match sr with
@@ -366,7 +381,7 @@ def monStep (m : MSt) (op : List String) (exts : List (List String)) (obs : Opti
           (if o.get kStressed == some "btrue" then [] else [mkFail "C06" "C06:stressed-marker" s!"span {o.sid}: {kStressed} = {o.get kStressed}"])
         match sr with
         | some (rate, _, reason) =>
-          let rf := if m.cfg.dry then [] else monRate "stress-first" false cl rate o
+          let rf := if m.cfg.dry then [] else monRate "stress-first" false cl cv rate o
           let rf := rf.map fun f => if f.sig == "C04:sample-rate:path=stress-first" then { f with sig := "C04:stress-rate" } else f
           (m, common ++ rf ++ monReason m "stress" o (strField reason) none none)
         | none =>
@@ -375,7 +390,7 @@ def monStep (m : MSt) (op : List String) (exts : List (List String)) (obs : Opti
           | some r =>
             let r := r.count kind
             let m := { m with kept := update m.kept tid r }
-            let rf := if m.cfg.dry then [] else monRate "stress" true cl r.rate o
+            let rf := if m.cfg.dry then [] else monRate "stress" true cl cv r.rate o
             (m, common ++ rf ++ monReason m "stress" o (strField r.reason) none none)
     | _ => (m, [])
   | ["reload", host, reason, sc, cnt, dry, attrs, _] =>
